@@ -23,6 +23,10 @@ pub struct RoleSc {
     pub targets: Vec<TargetM>,
     pub child: Option<Box<RoleSc>>,
     pub extra: Vec<String>,
+    /// the delegation entry of this role is marked terminating (the editor never writes that flag
+    /// itself, other publishers do)
+    #[serde(default)]
+    pub terminating: bool,
 }
 
 #[derive(Clone, Debug, Serialize, Deserialize)]
@@ -65,7 +69,7 @@ fn to_node(world: u64, r: &RoleSc, counter: &mut u64) -> RoleNode {
         signers: rk.keys.iter().take(r.thr as usize).cloned().collect(),
         keys: rk,
         paths: Paths::HashPrefixes(vec![String::new()]),
-        terminating: false,
+        terminating: r.terminating,
         version: 3,
         expires: T0 + 90 * DAY,
         targets: r
@@ -160,6 +164,7 @@ fn gen_role(r: &mut Rng, name: &str, depth: usize) -> RoleSc {
         targets: gen_targets(r, name, 3, false),
         child: if depth < 2 && r.chance(1, 3) { Some(Box::new(gen_role(r, &format!("{name}-sub"), depth + 1))) } else { None },
         extra,
+        terminating: r.chance(1, 3),
     }
 }
 
@@ -180,7 +185,7 @@ impl Check for C17 {
         "C17"
     }
     fn rule(&self) -> String {
-        "a foreign-publisher repository (0..4 top-level targets with custom data, in a third of the runs one of them under a name that needs resolution (alias/../n, ./n, a/b/../../n) and/or an added target that resolves to the same path as an existing one under another name, 0..2 delegated roles of depth <=2 with 1..3 keys / thresholds 1..3 and their own targets and unknown members, 0..2 unknown top-level members in each of targets, snapshot, timestamp) is loaded, passed through RepositoryEditor::from_repo with new versions/expirations and 0..3 added targets, signed, written and loaded again; non-trivial = the original carried at least one unknown member or delegated role and the update was written; distinct = distinct canonical trace".into()
+        "a foreign-publisher repository (0..4 top-level targets with custom data, in a third of the runs one of them under a name that needs resolution (alias/../n, ./n, a/b/../../n) and/or an added target that resolves to the same path as an existing one under another name, 0..2 delegated roles of depth <=2 (delegation entries terminating or not) with 1..3 keys / thresholds 1..3 and their own targets and unknown members, 0..2 unknown top-level members in each of targets, snapshot, timestamp) is loaded, passed through RepositoryEditor::from_repo with new versions/expirations and 0..3 added targets, signed, written and loaded again; non-trivial = the original carried at least one unknown member or delegated role and the update was written; distinct = distinct canonical trace".into()
     }
     fn assumptions(&self) -> Vec<String> {
         vec![
@@ -282,7 +287,7 @@ impl Check for C17 {
         world::set_clock(Some(T0));
         o.ev(format!(
             "cfg consistent={} top={} roles={:?} extras=({:?},{:?},{:?}) added={} versions={:?}",
-            sc.consistent, sc.top_targets.len(), sc.roles.iter().map(|r| (r.name.as_str(), r.nkeys, r.thr, r.targets.len(), r.child.is_some())).collect::<Vec<_>>(),
+            sc.consistent, sc.top_targets.len(), sc.roles.iter().map(|r| (r.name.as_str(), r.nkeys, r.thr, r.targets.len(), r.child.is_some(), r.terminating)).collect::<Vec<_>>(),
             sc.extra_targets, sc.extra_snapshot, sc.extra_timestamp, sc.added.len(), sc.new_versions
         ));
         if !sc.extra_targets.is_empty() {
